@@ -38,13 +38,18 @@ def main():
         # product: every cell once on a fresh object; pairs: every ordered pair of Access+Call steps on the SAME decorated
         # attribute (all access paths x conventions; quick: pattern pos, thorough: pos and kwonly)
         # WRAPS = layers of foreign `.fn`-exposing wrappers around the accessed object (0..WRAPS)
+        # NEWDIMS=1: bodies ending with result(x), raising bodies, calls made from inside a running task (all combinations)
         runs = [("product", {"CALLS": "1", "PATS": "all", "WRAPS": "2"}),
+                ("dims", {"CALLS": "1", "PATS": "few", "WRAPS": "0" if tier == "quick" else "1", "NEWDIMS": "1"}),
                 ("pairs", {"CALLS": "2", "PATS": "one", "WRAPS": "1"})]
         if tier == "thorough":
             runs.append(("pairs2", {"CALLS": "2", "PATS": "few", "WRAPS": "0"}))
         cases, states, transitions, ok, alarms, tails = [], 0, 0, True, [], []
-        for name, env in runs:
-            hs, res = sat.tlc_histories("Decorators", "Decorators.cfg", sc, env=env)
+        from concurrent.futures import ThreadPoolExecutor
+        with ThreadPoolExecutor(max_workers=3) as ex:       # the TLC runs are independent: three at a time
+            results = list(ex.map(lambda r: sat.tlc_histories("Decorators", "Decorators.cfg", sc, env=r[1],
+                                                              workers=max(2, common.NCPU // 2)), runs))
+        for (name, env), (hs, res) in zip(runs, results):
             al = sat.model_alarm(res)
             if al:
                 alarms.append("%s (%s)" % (al, name))
@@ -58,7 +63,7 @@ def main():
             ok = ok and res.ok
         total = nmis = 0
         for bname, bdir in builds.items():
-            mism, n = sat.replay(bdir, "replay_c09.py", cases)
+            mism, n = sat.replay(bdir, "replay_c09.py", cases, chunk=4000)
             total += n
             nmis += len(mism)
             for m in mism:
@@ -67,12 +72,15 @@ def main():
                 aspect = (m.get("aspects") or ["outcome"])[0]
                 if aspect == "harness":
                     raise MachineryError("replay_c09.py could not build %s/%s/%s: %s" % (c["deco"], c["defk"], c["body"], m["got"]))
-                verdict.report("C09." + aspect, "%s/%s" % (c["deco"], c["defk"]),
+                verdict.report("C09." + aspect, "%s/%s" % (c["deco"], c["defk"]) + ("/raising" if c.get("fail") else ""),
                                {"history": c, "got": m["got"], "first_diff": j, "aspects": m.get("aspects"), "build": bname})
         if alarms and not verdict.violations:
             raise MachineryError("; ".join(alarms) + " on Decorators.tla but the real callables follow every prescribed cell: the model is wrong\n" + "\n".join(tails))
         calls = [(c, o) for c in cases for o in c["h"]]
-        cells = {(c["deco"], c["defk"], c["body"], o["via"], o["wrap"], o["argp"], o["conv"]) for c, o in calls}
+        cells = {(c["deco"], c["defk"], c["body"], c["ending"], c["fail"], o["via"], o["wrap"], o["argp"], o["conv"], o["ctx"]) for c, o in calls}
+        in_task = sum(1 for c, o in calls if o["ctx"] == "task")
+        raising = sum(1 for c, o in calls if c["fail"])
+        result_end = sum(1 for c, o in calls if c["ending"] == "result")
         wrapped_calls = sum(1 for c, o in calls if o["wrap"])
         nontriv = sum(1 for c, o in calls if o["res"]["bound"] != "none" or o["res"]["ran"] == "sync")
         pairs = [c for c in cases if len(c["h"]) == 2]
@@ -85,14 +93,16 @@ def main():
             "states": states, "transitions": transitions, "traces_validated_against_impl": total,
             "samples": cases[:1] + cases[len(cases) // 2: len(cases) // 2 + 1] + cases[-1:],
             "histories": len(cases), "pair_histories": len(pairs), "pairs_through_different_access_paths": cross,
-            "pairs_with_different_bound_objects": rebound, "calls_per_build": len(calls), "calls_through_foreign_wrappers": wrapped_calls, "distinct_cells": len(cells), "calls_per_decorator": per_deco,
+            "pairs_with_different_bound_objects": rebound, "calls_per_build": len(calls), "calls_through_foreign_wrappers": wrapped_calls, "calls_from_inside_a_task": in_task,
+            "calls_with_raising_body": raising, "calls_with_result_ending": result_end, "distinct_cells": len(cells), "calls_per_decorator": per_deco,
             "builds": list(builds), "tlc_runs": [dict(env, name=name) for name, env in runs],
             "bindings": sorted({"%s/%s" % (c["defk"], o["via"]) for c, o in calls}),
             "conventions": sorted({o["conv"] for c, o in calls}), "argument_patterns": sorted({o["argp"] for c, o in calls}),
             "bodies": sorted({c["body"] for c in cases}),
             "model_invariants": INVARIANTS, "model_ok": ok, "mismatching_histories": nmis,
             "evaluations": total, "distinct_nontrivial": nontriv,
-            "rule": "complete product decorator kind x binding x 0-2 foreign wrappers x argument pattern x body x calling convention, plus every ordered pair of "
+            "rule": "complete product decorator kind x binding x 0-2 foreign wrappers x argument pattern x body x calling convention; the same product over the patterns "
+                    "pos/kwonly x {return x, result(x)} x {value, raising body} x {call from top level, from inside a running task}; plus every ordered pair of "
                     "Access+Call steps on one decorated attribute (all access paths x 0-1 wrappers x conventions; pattern pos, thorough: also pos/kwonly unwrapped), "
                     "each call prescribed as if alone; "
                     "non-trivial = the call has a bound first argument or runs sync_fn",
@@ -113,6 +123,12 @@ def main():
             "a foreign wrapper is a plain synchronous callable object exposing the wrapped callable as `.fn` (no asynq / is_pure_async_fn of its own, attributes can be "
             "set on it) whose call forwards to the direct call: it is pure exactly when what it wraps is pure, it has no .asynq, get_async_fn gives None unless pure, "
             "and sync_fn runs on every way of calling it; the helpers are asked before and after the call and must answer alike (memoisation)",
+            "a raising body raises after its last yield; the exception carries which body ran with which bound object and arguments, and every convention must raise "
+            "that exception (sync_fn raises its own); aretry is built for KeyError so that the exception is not retried (retrying is C14's subject)",
+            "make_async_decorator wrappers: one yielding the wrapped task (pending), one handing back an already computed task (value or error), one handing back "
+            "ConstFuture / ErrorFuture; the last two are not part of the pair histories",
+            "a call from inside a task is made in the body of a generator task between two yields; the yield / async_call conventions then run their caller task "
+            "by a nested synchronous call; result(x) endings only where there is an asynq body (not for the undecorated control and the ConstFuture proxy)",
             "the asyncio conventions (.asyncio) are C15's subject and not part of these cells",
             "TLC and the replay harness are trusted"], tier_=tier)
         return rc
